@@ -144,6 +144,22 @@ class FakeSocket(object):
     if self.err is not None:
       raise _socket.error(errno.EPIPE, 'Broken pipe')
     data = bytes(buf)
+    st = self.net.stall(self, data, idx) if self.net.stall is not None else None
+    if st:
+      # the peer's window is full after k bytes: the rest goes out later (or never, if the caller is
+      # interrupted by its own timeout while blocked here)
+      k, secs = st
+      k = max(1, min(len(data) - 1, k))
+      first, rest = data[:k], data[k:]
+      self.tx_bytes += len(first)
+      self.net.record('tx', self, first)
+      if not self.eof:
+        self.server.on_data(self, first)
+      self.net.record('stall', self, secs)
+      gevent.sleep(secs)
+      if self.closed:
+        raise _socket.error(errno.EBADF, 'Bad file descriptor')
+      data = rest
     self.tx_bytes += len(data)
     self.net.record('tx', self, data)
     if not self.eof:
@@ -225,6 +241,7 @@ class SimNet(object):
     self.gate = None       # fn(sock, bytes) -> Event | None
     self.chunker = None    # fn(sock, avail, want) -> n
     self.on_connect = None # fn(sock): called when a connect attempt starts
+    self.stall = None      # fn(sock, data, send_index) -> None | (k bytes, seconds)
     self.sockets = []
 
   def install(self):
